@@ -347,7 +347,9 @@ def unknown_locals(tree: ast.Module, modname: str) -> Dict[str, Set[str]]:
         sigs = localsig.signatures(fn)
         # unknown = defined in a way the reference function does not define any local (a reference *name* that is now bound
         # to something else - `for cur in _iter(..)` after inlining: `cur = <cursor>` - is unknown in this sense too)
-        out[q] = {nm for nm, key in sigs.items() if key not in ref}
+        # (`v = <other local>` abstracts to the uninformative signature `=_`: such a plain alias counts as unknown unless the
+        # reference function has a local of that very name with that signature)
+        out[q] = {nm for nm, key in sigs.items() if key not in ref or (key.startswith("=_#") and ref.get(key) != nm)}
     return out
 
 
